@@ -18,6 +18,7 @@ import (
 	"os"
 	"os/exec"
 	"runtime"
+	"strconv"
 	"strings"
 	"sync"
 	"testing"
@@ -101,24 +102,22 @@ func build(t fataler, r raw, sigsFrom *env) *env {
 		e.pts = append(e.pts, lp)
 		e.scs = append(e.scs, lib.Sc(r.scs[i]))
 	}
-	if sigsFrom != nil { // reuse signatures made by the other env's (equal) keys
-		e.sigs, e.rs, e.ssigs = sigsFrom.sigs, sigsFrom.rs, sigsFrom.ssigs
-		return e
-	}
+	_ = sigsFrom
+	// The signatures the verify operations consume are made by the reference, so that setting up an
+	// env never calls into the library's signing / hashing code (a lazily initialised package-level
+	// cache must still be cold when the concurrent phase of a fresh process starts).
 	for i := range e.priv {
-		sig, err := e.priv[i].Sign(secec.RFC6979SHA256(), e.dig[i], &secec.ECDSAOptions{Hash: crypto.SHA256, Encoding: secec.EncodingASN1})
-		if err != nil {
-			t.Fatalf("setup sign: %v", err)
+		r, s, id, _ := ref.RFC6979Sign(r.d[i], e.dig[i])
+		if ls, neg := ref.LowS(s); neg {
+			s, id = ls, id^1
 		}
-		e.sigs = append(e.sigs, sig)
-		r, s, v, err := e.priv[i].SignRaw(secec.RFC6979SHA256(), e.dig[i])
-		if err != nil {
-			t.Fatalf("setup signraw: %v", err)
-		}
-		e.rs = append(e.rs, [3][]byte{r.Bytes(), s.Bytes(), {v}})
-		ss, err := e.spriv[i].Sign(bytes.NewReader(make([]byte, 32)), e.dig[i], nil)
-		if err != nil {
-			t.Fatalf("setup schnorr sign: %v", err)
+		e.sigs = append(e.sigs, ref.EncodeDERSig(r, s))
+		e.rs = append(e.rs, [3][]byte{ref.B32(r), ref.B32(s), {byte(id)}})
+	}
+	for i := range e.spriv {
+		ss, ok := ref.BIP340Sign(r.sd[i], make([]byte, 32), e.dig[i])
+		if !ok {
+			t.Fatalf("reference schnorr sign failed")
 		}
 		e.ssigs = append(e.ssigs, ss)
 	}
@@ -290,27 +289,68 @@ func (e *env) exec(o op) []byte {
 	panic("unknown op kind " + o.Kind)
 }
 
-func drawOps(t *rapid.T) []op {
+func drawOps(t *rapid.T, minKinds, maxKinds int) []op {
 	n := rapid.IntRange(24, 96).Draw(t, "nops")
 	// a workload focuses on a few kinds so that the same objects are hit by different operations at once
-	nk := rapid.IntRange(2, 6).Draw(t, "nkinds")
+	nk := rapid.IntRange(minKinds, maxKinds).Draw(t, "nkinds")
 	var ks []string
 	for i := 0; i < nk; i++ {
 		ks = append(ks, rapid.SampledFrom(kinds).Draw(t, fmt.Sprintf("kind%d", i)))
 	}
+	return drawOpsOf(t, n, ks)
+}
+
+func drawOpsOf(t *rapid.T, n int, ks []string) []op {
 	ops := make([]op, n)
 	for i := range ops {
-		ops[i] = op{Kind: ks[rapid.IntRange(0, nk-1).Draw(t, "k")], A: rapid.IntRange(0, 5).Draw(t, "a"), B: rapid.IntRange(0, 5).Draw(t, "b"), C: rapid.IntRange(0, 5).Draw(t, "c")}
+		ops[i] = op{Kind: ks[rapid.IntRange(0, len(ks)-1).Draw(t, "k")], A: rapid.IntRange(0, 5).Draw(t, "a"), B: rapid.IntRange(0, 5).Draw(t, "b"), C: rapid.IntRange(0, 5).Draw(t, "c")}
 	}
 	return ops
 }
 
-func propWorkload(t *rapid.T) {
+func propWorkload(t *rapid.T) { workload(t, false) }
+
+// workload runs one generated workload.  coldStart=false: every operation is
+// first run alone on a twin set of objects (so package-level state is warm but
+// the shared objects themselves are untouched), then concurrently, then alone
+// again.  coldStart=true (fresh child process): the concurrent phase is the
+// very first use of the library in the process, the sequential runs follow.
+func workload(t *rapid.T, coldStart bool) {
 	material := drawRaw(t)
-	alone := build(t, material, nil) // used for the sequential baseline only
-	e := build(t, material, alone)   // equal objects that nothing has touched yet: used concurrently
-	ops := drawOps(t)
-	g := rapid.SampledFrom([]int{2, 3, 4, 8, 16, 32}).Draw(t, "goroutines")
+	var alone *env
+	if !coldStart {
+		alone = build(t, material, nil) // used for the sequential baseline only
+	}
+	e := build(t, material, alone) // objects that nothing has touched yet: used concurrently
+	var ops []op
+	var g int
+	if coldStart {
+		// A first-use race (a lazily filled package-level cache) is one early write against later reads.
+		// The detector keeps only the last few accesses per memory word, so the write is forgotten once
+		// several goroutines have read the word: such races are found by *small* workloads -- a handful of
+		// operations of one or two kinds on two to four goroutines -- repeated in many fresh processes,
+		// not by large ones.  The parent cycles the focus kind over all operation kinds.
+		ks := []string{kinds[rapid.IntRange(0, len(kinds)-1).Draw(t, "focus")]}
+		if f, err := strconv.Atoi(os.Getenv("VERIF_C20_FOCUS")); err == nil {
+			ks[0] = kinds[f%len(kinds)]
+		}
+		if rapid.IntRange(0, 2).Draw(t, "second-kind") == 0 {
+			ks = append(ks, rapid.SampledFrom(kinds).Draw(t, "kind2"))
+		}
+		g = rapid.IntRange(2, 4).Draw(t, "goroutines")
+		ops = drawOpsOf(t, g*rapid.IntRange(1, 3).Draw(t, "ops-per-goroutine"), ks)
+	} else if rapid.IntRange(0, 2).Draw(t, "small") == 0 {
+		// small workloads on fresh objects: first-use races inside an object (see above)
+		ks := []string{rapid.SampledFrom(kinds).Draw(t, "kind0")}
+		if rapid.Bool().Draw(t, "second-kind") {
+			ks = append(ks, rapid.SampledFrom(kinds).Draw(t, "kind1"))
+		}
+		g = rapid.IntRange(2, 4).Draw(t, "goroutines")
+		ops = drawOpsOf(t, g*rapid.IntRange(1, 3).Draw(t, "ops-per-goroutine"), ks)
+	} else {
+		ops = drawOps(t, 2, 6)
+		g = rapid.SampledFrom([]int{2, 3, 4, 8, 16, 32}).Draw(t, "goroutines")
+	}
 	procs := rapid.SampledFrom([]int{2, 4, 16}).Draw(t, "gomaxprocs")
 	yield := rapid.Bool().Draw(t, "gosched")
 	// record the workload so that a race report (which halts the process) can be tied to it
@@ -320,8 +360,10 @@ func propWorkload(t *rapid.T) {
 	}
 	// 1. every operation alone
 	want := make([][]byte, len(ops))
-	for i, o := range ops {
-		want[i] = alone.exec(o)
+	if !coldStart {
+		for i, o := range ops {
+			want[i] = alone.exec(o)
+		}
 	}
 	// 2. concurrently
 	old := runtime.GOMAXPROCS(procs)
@@ -344,6 +386,12 @@ func propWorkload(t *rapid.T) {
 	}
 	close(start)
 	wg.Wait()
+	if coldStart {
+		alone = build(t, material, nil)
+		for i, o := range ops {
+			want[i] = alone.exec(o)
+		}
+	}
 	kindsUsed := map[string]bool{}
 	for i, o := range ops {
 		kindsUsed[o.Kind] = true
@@ -361,7 +409,11 @@ func propWorkload(t *rapid.T) {
 	for k := range kindsUsed {
 		cl = append(cl, "op:"+k)
 	}
-	stat.Case("workload", cl, len(kindsUsed) >= 2 && g >= 2, []byte(desc), func() any {
+	sub := "workload"
+	if coldStart {
+		sub = "cold-start-workload"
+	}
+	stat.Case(sub, cl, len(kindsUsed) >= 2 && g >= 2, []byte(desc), func() any {
 		var os []string
 		for _, o := range ops {
 			os = append(os, o.String())
@@ -385,6 +437,11 @@ var fanoutScalars = []string{
 // of the library is 32 goroutines entering the table-using entry points at
 // once.  It only runs when started by TestC20_FreshProcess.
 func TestC20_FanoutChild(t *testing.T) {
+	if os.Getenv("VERIF_C20_CHILD") == "workload" {
+		// the first library use of this process is the concurrent phase of one generated workload
+		rapid.Check(t, func(t *rapid.T) { workload(t, true) })
+		return
+	}
 	if os.Getenv("VERIF_C20_CHILD") != "1" {
 		t.Skip("only runs as a child of TestC20_FreshProcess")
 	}
@@ -437,26 +494,69 @@ func TestC20_FanoutChild(t *testing.T) {
 // TestC20_FreshProcess starts fresh processes of this (race-enabled) test
 // binary whose first library use is the concurrent fan-out above.
 func TestC20_FreshProcess(t *testing.T) {
-	n := 6
+	n := 4 * len(kinds) * 4 / 3 // 3 of every 4 children are workloads: 4 rounds over all kinds
 	if os.Getenv("VERIF_TIER") == "thorough" {
-		n = 40
+		n *= 12
 	}
+	base, _ := strconv.ParseUint(os.Getenv("VERIF_RAPID_SEED"), 10, 64)
+	if base == 0 {
+		base = 1
+	}
+	type result struct {
+		i     int
+		mode  string
+		args  []string
+		focus int
+		procs int
+		out   string
+		err   error
+	}
+	results := make([]result, n)
+	var wg sync.WaitGroup
+	sem := make(chan struct{}, 8)
+	focus := 0
 	for i := 0; i < n; i++ {
-		cmd := exec.Command(os.Args[0], "-test.run", "^TestC20_FanoutChild$", "-test.count=1", "-test.v")
-		cmd.Env = append(os.Environ(), "VERIF_C20_CHILD=1", "VERIF_STATS=", fmt.Sprintf("GOMAXPROCS=%d", []int{16, 4, 2}[i%3]))
-		out, err := cmd.CombinedOutput()
-		s := string(out)
-		if strings.Contains(s, "DATA RACE") {
-			t.Fatalf("data race on first concurrent use of the library in a fresh process:\n%s", s)
+		r := result{i: i, mode: "workload", procs: []int{16, 4, 2}[i%3], focus: -1}
+		if i%4 == 3 {
+			r.mode = "1"
+		} else {
+			r.focus = focus
+			focus++
+			r.args = []string{"-rapid.checks=1", fmt.Sprintf("-rapid.seed=%d", (base+uint64(i)*0x9e3779b97f4a7c15)|1), "-rapid.nofailfile"}
 		}
-		if err != nil || !strings.Contains(s, "--- PASS: TestC20_FanoutChild") {
-			if strings.Contains(s, "--- FAIL") {
-				t.Fatalf("fresh-process fan-out failed:\n%s", s)
+		results[i] = r
+		wg.Add(1)
+		sem <- struct{}{}
+		go func(r *result) {
+			defer wg.Done()
+			defer func() { <-sem }()
+			cmd := exec.Command(os.Args[0], append([]string{"-test.run", "^TestC20_FanoutChild$", "-test.count=1", "-test.v"}, r.args...)...)
+			cmd.Env = append(os.Environ(), "VERIF_C20_CHILD="+r.mode, "VERIF_STATS=", "VERIF_C20_CURRENT=", fmt.Sprintf("GOMAXPROCS=%d", r.procs), fmt.Sprintf("VERIF_C20_FOCUS=%d", r.focus))
+			out, err := cmd.CombinedOutput()
+			r.out, r.err = string(out), err
+		}(&results[i])
+	}
+	wg.Wait()
+	for _, r := range results {
+		what := fmt.Sprintf("child %d (mode %s, focus %d, args %v, GOMAXPROCS %d)", r.i, r.mode, r.focus, r.args, r.procs)
+		if r.focus >= 0 {
+			what += " focus kind " + kinds[r.focus%len(kinds)]
+		}
+		if strings.Contains(r.out, "DATA RACE") {
+			t.Fatalf("data race on first concurrent use of the library in a fresh process, %s:\n%s", what, r.out)
+		}
+		if r.err != nil || !strings.Contains(r.out, "--- PASS: TestC20_FanoutChild") {
+			if strings.Contains(r.out, "--- FAIL") || strings.Contains(r.out, "fatal error:") || strings.Contains(r.out, "panic:") {
+				t.Fatalf("fresh-process %s failed:\n%s", what, r.out)
 			}
-			t.Fatalf("HARNESS-INCONCLUSIVE: child process: %v\n%s", err, s)
+			t.Fatalf("HARNESS-INCONCLUSIVE: child process: %v\n%s", r.err, r.out)
 		}
-		stat.Case("fresh-process-fanout", []string{fmt.Sprintf("gomaxprocs:%d", []int{16, 4, 2}[i%3])}, true, []byte(fmt.Sprint(i)), func() any {
-			return map[string]any{"child": i, "goroutines": 32, "entry_points": "ScalarBaseMult, DoubleScalarMultBasepointVartime, ScalarMult, NewPrivateKey"}
+		cl := []string{"mode:table-fanout", fmt.Sprintf("gomaxprocs:%d", r.procs)}
+		if r.focus >= 0 {
+			cl = []string{"mode:cold-start-workload", "focus:" + kinds[r.focus%len(kinds)], fmt.Sprintf("gomaxprocs:%d", r.procs)}
+		}
+		stat.Case("fresh-process", cl, true, []byte(what), func() any {
+			return map[string]any{"child": r.i, "mode": r.mode, "focus": r.focus, "args": r.args}
 		})
 	}
 }
